@@ -83,6 +83,41 @@ def run(check):
                     'answered by dropping the connection' % (short(c), label))
     else:
       r_c.ok('%s: no loseConnection/abortConnection reachable' % label, m.loc())
+  # ------------------------------------------------------------------ frames are decoded independently
+  r_f = check.rule('R-C11-frame-local', 1, 'a frame is unpickled from a stream built afresh from that frame only')
+  from ..rulelib import reaching_defs, value_assigned
+  for sc in check.repo.module('carbon.util').classes.get('SafeUnpickler', []):
+    loads = sc.methods.get('loads')
+    if loads is None:
+      continue
+    check.analysed(loads)
+    g = cx.cfg(loads)
+    p = loads.params[1] if len(loads.params) > 1 else None
+    ctors = []
+    for n in g.nodes:
+      for c in g.calls(n):
+        nm = dotted(c.func) or ''
+        if (nm == loads.params[0] or nm.endswith('Unpickler')) and c.args:
+          ctors.append((n, c))
+
+    def fresh(e, node, depth=0):
+      if isinstance(e, ast.Call) and (dotted(e.func) or '').split('.')[-1] in ('StringIO', 'BytesIO') and len(e.args) == 1 and \
+         isinstance(e.args[0], ast.Name) and e.args[0].id == p:
+        return True
+      if isinstance(e, ast.Name) and depth < 2:
+        rds = reaching_defs(g, e.id, node)
+        vals = [value_assigned(d, e.id) for d in rds if d is not g.entry]
+        return bool(vals) and len(vals) == len(rds) and all(isinstance(v, ast.AST) and fresh(v, d, depth + 1) for v, d in zip(vals, rds))
+      return False
+    if not ctors:
+      r_f.cannot_decide('SafeUnpickler.loads: construction of the unpickler not recognised')
+    for n, c in ctors:
+      if fresh(c.args[0], n):
+        r_f.ok('SafeUnpickler.loads[%s] reads from a fresh StringIO(<frame>)' % (sc.guard or 'py3'), loads.loc(c))
+      else:
+        r_f.violate('unpickler input shared between frames', loads, c, 'the unpickler reads from `%s`, which is not a buffer created '
+                    'from this frame alone: bytes of an earlier (longer) frame remain behind the current one, so a truncated frame '
+                    'that must be skipped runs on into stale data and earlier datapoints are accepted again' % unparse(c.args[0]))
   if len(ents) < 3:
     r_e.cannot_decide('expected the line, UDP and pickle receiver callbacks, found %d' % len(ents))
 
